@@ -427,6 +427,88 @@ def loop_designs():
     return out
 
 
+CHANNEL_SHAPES = ("whole", "parts", "rdslice", "fa", "fb", "nested", "arr")
+
+
+def _channel(d, st, shape, j):
+    """storage of one 4-bit quantity passed between the two blocks of a loop design.
+    Returns (list of target views written in order, read expression builder)."""
+    if shape in ("whole", "parts", "rdslice"):
+        x = d.add_sig((), "x%d" % j, "wire", 4)
+        tv = [View(x)] if shape != "parts" else [View(x, (), (0, 2)), View(x, (), (2, 4))]
+        if shape == "rdslice":
+            rdx = {"k": "cat", "hi": rd(View(x, (), (1, 4))), "lo": rd(View(x, (), (0, 1))), "low": 1}
+        else:
+            rdx = rd(View(x))
+        return tv, rdx
+    if shape in ("fa", "fb"):                      # two fields of ONE struct wire shared by the channels
+        if "P8" not in st:
+            st["P8"] = d.add_sig((), "st", "wire", "P8")
+        v = View(st["P8"], ("a",) if shape == "fa" else ("b",))
+        return [v], rd(v)
+    if shape == "nested":
+        if "N10" not in st:
+            st["N10"] = d.add_sig((), "sn", "wire", "N10")
+        v = View(st["N10"], ("p", "a"))
+        return [v], rd(v)
+    if shape == "arr":
+        if "arr" not in st:
+            st["arr"] = [d.add_sig((), "arr%d" % i, "wire", 4, arr=("arr", i, 4)) for i in range(4)]
+            st["arrn"] = 0
+        v = View(st["arr"][st["arrn"]])
+        st["arrn"] += 1
+        return [v], rd(v)
+    raise ValueError(shape)
+
+
+def loop_channel_designs(quick=False):
+    """C11: two blocks W and R that pass a value back and forth through three channels
+    (a -> c1 -> c2 -> c3 -> o; c1, c3 : W -> R, c2 : R -> W), every channel stored in one of the
+    shapes of CHANNEL_SHAPES (whole wire, wire written in parts and read whole, wire read in
+    slices, two fields of one shared struct, nested field, list element).  Block-level cyclic, bit-
+    level acyclic: the cyclic-capable schedulers need two passes and must notice a change that
+    travels through ANY of the shapes.  The divergent variants close the loop with an inversion
+    (c1 = ~(c1 + even constant) has no fixed point): an error must be raised."""
+    out = []
+    k = 0
+    combos = [(s1, s2, s3) for s1 in CHANNEL_SHAPES for s2 in CHANNEL_SHAPES for s3 in CHANNEL_SHAPES
+              if not (s1 == s2 and s1 in ("fa", "fb", "nested")) and not (s1 == s3 and s1 in ("fa", "fb", "nested"))
+              and not (s2 == s3 and s2 in ("fa", "fb", "nested"))]
+    for ci, (s1, s2, s3) in enumerate(combos):
+        for divergent in (False, True):
+            if divergent and ci % 4:
+                continue
+            if quick and (ci % 5) not in (0, 3) and not ({s1, s3} in ({"fa", "fb"}, {"parts", "whole"}, {"parts", "fa"})):
+                continue
+            d = _mk("LC%d" % k)
+            k += 1
+            a = d.add_sig((), "a", "in", 4)
+            o = d.add_sig((), "o", "out", 4)
+            st = {}
+            (t1, r1), (t2, r2), (t3, r3) = _channel(d, st, s1, 1), _channel(d, st, s2, 2), _channel(d, st, s3, 3)
+
+            def wr(tvs, e):
+                if len(tvs) == 1:
+                    return [as_(tvs[0], e)]
+                # written in parts: low part, then high part of the same expression
+                return [as_(tvs[0], {"k": "trunc", "a": e, "w": 2}),
+                        as_(tvs[1], {"k": "trunc", "a": {"k": "bin", "op": "shr", "a": e, "b": lit(4, 2), "w": 4}, "w": 2})]
+
+            src = rd(View(a))
+            if divergent:
+                src = {"k": "not", "a": r3, "w": 4}
+            blk(d, "W", (), wr(t1, add(src, lit(4, 1), 4)) + wr(t3, add(r2, lit(4, 2), 4)))
+            blk(d, "R", (), wr(t2, add(r1, lit(4, 5), 4)) + [as_(View(o), add(r3, lit(4, 7), 4))])
+            d.shapes = (s1, s2, s3)
+            if divergent:
+                d.bitacyclic = False
+                d.family = "divergent"
+            else:
+                d.family = "falseloop"
+            out.append(d)
+    return out
+
+
 def model_designs():
     """Tiny designs (input widths <= 2) for the exhaustive TLC run over ALL interleavings."""
     out = []
@@ -645,7 +727,25 @@ class Corpus:
                 if not found:
                     continue
             elif kind == 2 and steps:
-                del c["ev"][steps[0]]                          # a block that never ran
+                # a block that never ran: only a step whose block runs exactly once in its pass is
+                # a sound canary (a member of a cyclic group may legitimately run again later)
+                seg, cand = {}, None
+                pass_no = 0
+                for i, e in enumerate(c["ev"]):
+                    if e["k"] in ("beval", "btick", "eeval", "etick", "flip"):
+                        pass_no += 1
+                    elif e["k"] == "step":
+                        seg.setdefault((pass_no, e["b"]), []).append(i)
+                once = sorted(v[0] for v in seg.values() if len(v) == 1)
+                # ... and only if the value it computed matters (the state changed at that step)
+                for i in once:
+                    prev = c["ev"][i - 1].get("st") if i > 0 else None
+                    if prev is not None and prev != c["ev"][i].get("st"):
+                        cand = i
+                        break
+                if cand is None:
+                    continue
+                del c["ev"][cand]
             elif kind == 3:
                 ffs = [i for i, e in enumerate(c["ev"]) if e["k"] == "flip"]
                 regs = [i for i, s in enumerate(dj["sigs"]) if s["reg"]]
